@@ -220,7 +220,7 @@ def run(m, chk):
     arg_flow(r, chk, "ARG-FLOW", q, ".update", "nodes", ["nodes", "self.knotvector"], what="with tolerance=None the result must still interpolate the old curve at the remaining knots")
     from .extra import abs_inside
 
-    abs_inside(r, chk, ["curves.Curve.fit_curve", "curves.Curve.clean"], floor=2)
+    abs_inside(r, chk, ["curves.Curve.fit_curve", "curves.Curve.clean"], floor=1)
     from .extra import dtype_agree
 
     dtype_agree(r, chk)
